@@ -488,6 +488,8 @@ func segmentFMP4MuxParts(
 			return h.Expand()
 
 		case "traf":
+			tfhd = nil
+			tfdt = nil
 			return h.Expand()
 
 		case "tfhd":
@@ -503,6 +505,10 @@ func segmentFMP4MuxParts(
 				return nil, err
 			}
 			tfdt = box.(*amp4.Tfdt)
+
+			if tfhd == nil {
+				return nil, fmt.Errorf("tfhd box not found")
+			}
 
 			track := findInitTrack(tracks, int(tfhd.TrackID))
 			if track == nil {
@@ -520,6 +526,10 @@ func segmentFMP4MuxParts(
 				return nil, err
 			}
 			trun := box.(*amp4.Trun)
+
+			if tfhd == nil || tfdt == nil {
+				return nil, fmt.Errorf("tfhd or tfdt box not found")
+			}
 
 			dataOffset := moofOffset + uint64(trun.DataOffset)
 			dts := int64(tfdt.BaseMediaDecodeTimeV1) + startDTSMP4
